@@ -126,8 +126,9 @@ func AliasLeafPointers(root interface{}, pick func() bool) int {
 		for i := 0; i < t.NumField(); i++ {
 			f := s.Field(i)
 			switch Classify(t.Field(i)) {
-			case FLeaf:
-				if f.Kind() == reflect.Ptr && !f.IsNil() && f.Elem().Kind() != reflect.Struct {
+			case FLeaf, FLeafList:
+				if (f.Kind() == reflect.Ptr && !f.IsNil() && f.Elem().Kind() != reflect.Struct) || (f.Kind() == reflect.Slice && f.Len() > 0) {
+					// scalar leaves share a pointer; leaf-lists and binary values share a backing array
 					k := f.Type().String() + "=" + Render(f)
 					if _, ok := groups[k]; !ok {
 						order = append(order, k)
